@@ -54,6 +54,8 @@ func C20(c *Ctx) {
 	r.Rule("R20.4", "applied-index value: the index persisted by reportState is the one looked up in blockAppliedIndex under the reported state's height, and publishEntries records (batch height -> index of the entry that carried it).")
 	r.Rule("R20.5", "pool confinement: the transaction pool's unsynchronised methods (GetTransaction, ProcessTransactions, GenerateBlock, CommitTransactions, ...) are called from exactly one goroutine root per ordering node (the main event loop).")
 	r.Rule("R20.7", "the snapshot names the log position it is paired with: the payload handed to TakeSnapshot(appliedIndex, ..) carries the height minted from the entries up to that index (n.lastExec), set in getSnapshot from that field and from nothing the executor or the ledger reports - their height lags behind the minted height under load, and a follower restored from such a snapshot would re-mint heights it already has or skip blocks.")
+	r.Rule("R20.10", "a snapshot covers only what the executor has persisted: lastExec / appliedIndex advance when a block is handed to the executor, not when it is durable; the raft log below a snapshot is never replayed after a restart, so the position handed to TakeSnapshot in maybeTriggerSnapshot is bounded by state that reportState (the executor's acknowledgement) maintains - it derives from a Node field assigned on the reportState path, or the call lies behind a comparison with such a field. Otherwise a crash between minting the snapshot height and persisting it loses those blocks for ever (the entries are below the snapshot; every later entry is dropped as Height != lastExec+1).")
+	c.c20SnapshotBound()
 	r.Rule("R20.8", "state sync delivers every height: in StateSyncer.SyncCFTBlocks a range whose fetch failed is not skipped - the retry of the fetch is unbounded (no strategy.Limit), or the error after the retry ends the sync with an error instead of being logged while the loop goes on to the next range; a skipped range is a gap in the heights handed to the executor.")
 	r.Rule("R20.9", batchedMarkText)
 	c.batchedMarks("R20.9")
@@ -636,4 +638,65 @@ func (c *Ctx) c20SyncRanges() {
 			"the fetch of a block range is retried a bounded number of times and its failure is only logged: the loop goes on with the next range and the sync reports success - the heights of the failed range are never delivered to the executor, which then waits for ever for the next height (or the node serves a chain with a gap)")
 	}
 	r.Floor("R20.8", "range fetches in SyncCFTBlocks", n, 1)
+}
+
+// c20SnapshotBound: R20.10.
+func (c *Ctx) c20SnapshotBound() {
+	r := c.R
+	mt := c.fn("R20.10", "pkg/order/etcdraft.(*Node).maybeTriggerSnapshot")
+	rs := c.fn("R20.10", "pkg/order/etcdraft.(*Node).reportState")
+	if mt == nil || rs == nil {
+		return
+	}
+	acked := map[string]bool{}
+	for _, rf := range c.regionOf(rs, 2) {
+		for _, b := range rf.fn.Blocks {
+			for _, in := range b.Instrs {
+				if st, ok := in.(*ssa.Store); ok {
+					if o, f, _, ok := core.FieldOf(st.Addr); ok && strings.HasSuffix(o, "etcdraft.Node") {
+						acked[f] = true
+					}
+				}
+			}
+		}
+	}
+	mentionsAcked := func(v ssa.Value) bool {
+		return core.Mentions(v, func(w ssa.Value) bool {
+			o, f, _, ok := core.FieldOf(w)
+			return ok && strings.HasSuffix(o, "etcdraft.Node") && acked[f]
+		})
+	}
+	n := 0
+	for _, rf := range c.regionOf(mt, 1) {
+		for _, call := range core.Calls(rf.fn) {
+			if !strings.HasSuffix(core.CalleeName(call), "RaftStorage).TakeSnapshot") || len(call.Common().Args) < 2 {
+				continue
+			}
+			n++
+			idx := call.Common().Args[1]
+			ok := mentionsAcked(idx)
+			if !ok {
+				bounded := condEdges(rf.fn, func(f core.Fact, ifi *ssa.If) (bool, int) {
+					if mentionsAcked(ifi.Cond) {
+						return true, 0
+					}
+					return false, 0
+				})
+				both := core.EdgeSet{}
+				for b, mm := range bounded {
+					_ = mm
+					both.Add(b, 0)
+					both.Add(b, 1)
+				}
+				if both.Len() > 0 {
+					reach := core.Reach([]core.Point{core.EntryOf(rf.fn)}, nil, core.CutOf(both))
+					ok = !reach.Has(call)
+				}
+			}
+			key := "maybeTriggerSnapshot: snapshot position bounded by what the executor acknowledged"
+			r.Check(ok, "R20.10", key, c.P.Pos(call.Pos()), "the index derives from / is compared with state maintained by reportState",
+				"TakeSnapshot(appliedIndex, ..) is called for a position the executor may not have persisted yet (appliedIndex and lastExec advance when a block is put on the commit channel): kill the process after the snapshot and before the executor persists its height - the restart opens the log at the snapshot, never replays the missing blocks and drops every later entry (Height != lastExec+1); a single replica loses the blocks, a replica of a larger cluster stalls for ever")
+		}
+	}
+	r.Floor("R20.10", "TakeSnapshot calls on the snapshot trigger path", n, 1)
 }
